@@ -52,8 +52,8 @@ def expected_edges(model, entry_toks=None):
                 if t.is_bytes():
                     seq.append((u, i, t))
         for n, (u, i, t) in enumerate(seq):
-            if t.kind != "insn":
-                continue
+            if t.kind != "insn" or t.ikind == "pad":
+                continue  # (nothing is demanded of the library's own padding)
             nxt = seq[n + 1][2] if n + 1 < len(seq) else None
             nxt_code = nxt is not None and nxt.kind == "insn"
             k = t.ikind
@@ -113,11 +113,18 @@ def resolve(model, labels, name):
         return ("sym", name)
     s, u, i = labels[name]
     nb = next_byte_token(model, s, u, i)
+    first_pad = None
     while nb is not None and nb[1].origin == "pad":
         # alignment padding is transparent: a label in front of it labels
         # what follows it
+        if first_pad is None:
+            first_pad = nb[1]
         u2 = nb[0]
         nb = next_byte_token(model, s, u2, u2.toks.index(nb[1]) + 1)
     if nb is None:
+        if first_pad is not None:
+            # orphaned padding (what it aligned was deleted): nothing follows
+            # it, so the label names the padding itself
+            return ("tok", first_pad.id)
         return ("end", s)
     return ("tok", nb[1].id)
